@@ -11,7 +11,9 @@ T0 = datetime(2000, 1, 1)
 
 TICK = [timedelta(minutes=1)]  # the time lattice unit (H-SCHED runs may use other ticks, e.g. 1/3 s or 1 day)
 EPOCH = [None]  # origin of the lattice if not T0 (runs may start at other dates: before 1970, across 2038, far future)
-EPOCHS = [None, None, None, None, None, [1969, 12, 31, 23, 58], [1900, 2, 28, 23, 50], [2400, 2, 28, 23, 0], [2038, 1, 19, 3, 10]]
+# (the last two: the limits of numpy's datetime64[ns], 1677-09-21 00:12:43 and 2262-04-11 23:47:16, lie inside the run)
+EPOCHS = [None, None, None, None, None, None, [1969, 12, 31, 23, 58], [1900, 2, 28, 23, 50], [2400, 2, 28, 23, 0], [2038, 1, 19, 3, 10],
+          [1677, 9, 20, 23, 50], [2262, 4, 11, 23, 30]]
 
 
 def origin():
